@@ -309,6 +309,52 @@ func (c *Ctx) mergeStates(conds []string, sts []*State) *State {
 		}
 		n.locals[k] = c.defineAlways("loc_"+k.Comment, c.sorts.Of(k.Type().(*types.Pointer).Elem()), iteChain(conds, vs))
 	}
+	// visited sets of map ranges
+	{
+		rk := map[*ssa.Range]bool{}
+		for _, s := range sts {
+			for k := range s.vis {
+				rk[k] = true
+			}
+		}
+		var rs []*ssa.Range
+		for k := range rk {
+			rs = append(rs, k)
+		}
+		sort.Slice(rs, func(i, j int) bool { return rs[i].Pos() < rs[j].Pos() || (rs[i].Pos() == rs[j].Pos() && rs[i].Name() < rs[j].Name()) })
+		for _, k := range rs {
+			var vs []string
+			same, all := true, true
+			var info visInfo
+			for _, s := range sts {
+				v, ok := s.vis[k]
+				if !ok {
+					all = false
+					break
+				}
+				info = v
+				vs = append(vs, v.set)
+				if v.set != vs[0] {
+					same = false
+				}
+			}
+			if !all {
+				if n.vis != nil {
+					delete(n.vis, k)
+				}
+				continue
+			}
+			if n.vis == nil {
+				n.vis = map[*ssa.Range]visInfo{}
+			}
+			if same {
+				n.vis[k] = info
+				continue
+			}
+			info.set = c.defineAlways("vis", info.sort, iteChain(conds, vs))
+			n.vis[k] = info
+		}
+	}
 	for _, s := range sts {
 		if s.epoch != n.epoch {
 			c.epochSeq++
